@@ -1004,7 +1004,34 @@ class Evaluator:
             p.effects.append(Effect("mapper", line, op=m, args=args, arg_descs=descs))
             p.ret = UNIT
             return [p]
-        if rname in ("context.label_map", "context.fn_map", "context.macro_map", "context.undefined_labels", "context.macro_nesting_counter"):
+        TRACKED = ("context.label_map", "context.fn_map", "context.macro_map", "context.undefined_labels", "context.macro_nesting_counter")
+        if isinstance(recv, Obj) and recv.name.startswith("iter:") and recv.name[5:] in TRACKED and m in ("any", "position", "find") and args \
+                and isinstance(args[0], Obj) and args[0].name == "closure":
+            # `c.iter().any(|x| x == key)`: a membership test on the container, whatever its type
+            body = args[0].attrs.get("$body") or {}
+            params = [pp.get("name") for pp in args[0].attrs.get("$params") or [] if isinstance(pp, dict)]
+            while body.get("k") == "block" and len(body.get("stmts", [])) == 1 and body["stmts"][0].get("k") == "expr":
+                body = body["stmts"][0]["e"]
+            key = None
+            if body.get("k") == "bin" and body.get("op") == "==":
+                for side in (body["l"], body["r"]):
+                    d_ = self.describe(side).lstrip("*&")
+                    if d_ not in params:
+                        key = d_
+            if key is not None:
+                tgt = recv.name[5:]
+                p.effects.append(Effect("map", line, target=tgt, op="contains", args=[], arg_descs=[key]))
+                p.ret = Bool(None, desc=f"{tgt}.contains({key})")
+                return [p]
+        if rname in TRACKED and m in ("push", "pop"):
+            # a vector used as a set/stack: push = insert, pop = remove (of the element pushed last)
+            p.effects.append(Effect("map", line, target=rname, op="insert" if m == "push" else "remove", args=args, arg_descs=descs))
+            p.ret = UNIT if m == "push" else Opt(Top("popped"), True)
+            return [p]
+        if rname in TRACKED and m in ("iter", "into_iter", "keys"):
+            p.ret = Obj("iter:" + rname)
+            return [p]
+        if rname in TRACKED:
             p.effects.append(Effect("map", line, target=rname, op=m, args=args, arg_descs=descs))
             if m == "get":
                 p.ret = Opt(Obj("entry:" + rname, {"map": Num("usize", p_var("label.map"))}), True)
